@@ -3,7 +3,7 @@
 //@ implicit: C08
 //@ source: src/debugger/variable/value/specialization/mod.rs
 //@ fn: VariableParserExtension::parse_vec_dequeue_inner (ring index arithmetic fragment), guard_len, guard_cap
-//@ assume: `cap` is the value of extract_capacity (the deque's real capacity field) or usize::MAX for zero-sized elements; `head`, `len` are the raw fields: no precondition on them (memory may hold arbitrary bytes)
+//@ assume: `real_cap` stands for the value returned by extract_capacity (the deque's capacity field as the program holds it), `head_field` for the `head` field, `len` for the guarded `len` field: no precondition on any of them (memory may hold arbitrary bytes)
 //@ assume: the two regions are iterated by `region.clone().map(..)` and fetched by read_region with exactly region.len() * el_type_size bytes (std Range iteration; C15.read E_len)
 //@ notcovered: element decoding, reading the buffer, type-graph driven parsing
 use vstd::prelude::*;
@@ -49,12 +49,15 @@ fn outline_min(a: usize, b: usize) -> (r: usize)
 }
 
 //@ extract: impl VariableParserExtension<'a> / fn parse_vec_dequeue_inner
-//@   fragment: `let len = len.min(cap);` .. `(wrapped_start..cap, 0..tail_len) };`
-//@   sig: fn deque_ring(cap: usize, head: usize, len: usize) -> (r: (core::ops::Range<usize>, core::ops::Range<usize>))
+//@   fragment: `let cap = if el_type_size == 0 {` .. `(wrapped_start..cap, 0..tail_len) };`
+//@   sig: fn deque_ring(el_type_size: usize, real_cap: usize, head_field: usize, len: usize) -> (r: (core::ops::Range<usize>, core::ops::Range<usize>))
 //@   tail: slice_ranges
-//@   ensures E_count: (r.0.end - r.0.start) + (r.1.end - r.1.start) == (if len <= cap { len } else { cap }) && r.0.start <= r.0.end && r.1.start <= r.1.end
-//@   ensures E_inb: forall|i: int| 0 <= i < (r.0.end - r.0.start) + (r.1.end - r.1.start) ==> 0 <= #[trigger] chain_at(r, i) < cap
-//@   ensures E_phys: cap > 0 ==> forall|i: int| 0 <= i < (r.0.end - r.0.start) + (r.1.end - r.1.start) ==> #[trigger] chain_at(r, i) == phys(head as int, i, cap as int)
+//@   ensures E_count: (r.0.end - r.0.start) + (r.1.end - r.1.start) <= len && r.0.start <= r.0.end && r.1.start <= r.1.end
+//@   ensures E_count2: el_type_size > 0 ==> (r.0.end - r.0.start) + (r.1.end - r.1.start) == (if len <= real_cap { len } else { real_cap })
+//@   ensures E_inb: el_type_size > 0 ==> forall|i: int| 0 <= i < (r.0.end - r.0.start) + (r.1.end - r.1.start) ==> 0 <= #[trigger] chain_at(r, i) < real_cap
+//@   ensures E_phys: el_type_size > 0 && real_cap > 0 ==> forall|i: int| 0 <= i < (r.0.end - r.0.start) + (r.1.end - r.1.start) ==> #[trigger] chain_at(r, i) == phys(head_field as int, i, real_cap as int)
+//@   rewrite W_cap: `extract_capacity(pcx, &val)?` => `real_cap`
+//@   rewrite W_head: `val.assume_field_as_scalar_number("head")? as usize` => `head_field`
 //@   outline O_min: `len.min($b)` => `outline_min(len, $b)`
 //@   proof before `let slice_ranges`: assert(cap > 0 ==> forall|i: int| 0 <= i < len ==> #[trigger] phys(head as int, i, cap as int) == (if wrapped_start + i < cap { wrapped_start + i } else { wrapped_start + i - cap })) by { if cap > 0 { assert forall|i: int| 0 <= i < len implies #[trigger] phys(head as int, i, cap as int) == (if wrapped_start + i < cap { wrapped_start + i } else { wrapped_start + i - cap }) by { lemma_mod_add(head as int, i, cap as int); if wrapped_start + i < cap { lemma_mod_small(wrapped_start + i, cap as int); } else { vstd::arithmetic::div_mod::lemma_mod_sub_multiples_vanish(wrapped_start + i, cap as int); lemma_mod_small(wrapped_start + i - cap, cap as int); } } } };
 //@ end
